@@ -39,8 +39,45 @@ pub fn gram_case(rng: &mut Rng, max_size: usize, deco: &DecoOpts) -> WellFormed 
     WellFormed { text: layout.render(), name: "gram".into(), prog: Some(prog), layout: Some(layout), seed_width: None }
 }
 
+/// a valid routine whose statements are nested 12 to 40 levels deep (begin..end, if, while, for,
+/// try..finally, repeat, case arms), with a statement, a comment or a literal at every level
+pub fn deep_program(rng: &mut Rng) -> String {
+    let depth = rng.range(12, 40);
+    let mut s = String::from("procedure Deep;\nbegin\n");
+    let mut closers: Vec<String> = vec![];
+    for d in 0..depth {
+        let ind = "  ".repeat(d + 1);
+        let (open, close): (String, String) = match rng.below(7) {
+            0 => (format!("{ind}if A{d} then\n{ind}begin\n"), format!("{ind}end;\n")),
+            1 => (format!("{ind}while B{d} do\n{ind}begin\n"), format!("{ind}end;\n")),
+            2 => (format!("{ind}for I{d} := 0 to N do begin\n"), format!("{ind}end;\n")),
+            3 => (format!("{ind}try\n"), format!("{ind}finally\n{ind}  Done{d};\n{ind}end;\n")),
+            4 => (format!("{ind}repeat\n"), format!("{ind}until C{d};\n")),
+            5 => (format!("{ind}case K{d} of\n{ind}  1: begin\n"), format!("{ind}  end;\n{ind}end;\n")),
+            _ => (format!("{ind}begin\n"), format!("{ind}end;\n")),
+        };
+        s.push_str(&open);
+        match rng.below(5) {
+            0 => s.push_str(&format!("{ind}  // level {d}\n")),
+            1 => s.push_str(&format!("{ind}  X{d} := Foo(A, B{d}) + 1;\n")),
+            2 => s.push_str(&format!("{ind}  S{d} := '''\n{ind}    text {d}\n{ind}    ''';\n")),
+            _ => {}
+        }
+        closers.push(close);
+    }
+    s.push_str(&format!("{}Innermost(1, 2, 3);\n", "  ".repeat(depth + 1)));
+    while let Some(c) = closers.pop() {
+        s.push_str(&c);
+    }
+    s.push_str("end;\n");
+    s
+}
+
 /// 40 % seeds (incl. expected outputs), 60 % grammar programs
 pub fn well_formed(ctx: &Ctx, rng: &mut Rng, max_size: usize) -> WellFormed {
+    if rng.chance(1, 40) {
+        return WellFormed { text: deep_program(rng), name: "deep-nesting".into(), prog: None, layout: None, seed_width: None };
+    }
     if !ctx.seeds.is_empty() && rng.chance(2, 5) {
         let mut s = rng.pick(&ctx.seeds);
         // a few data tests exercise lexically broken code (unterminated literals/comments,
